@@ -397,7 +397,7 @@ def make_ref(tok, init):
     k = tok[0]
     if k == "S":
         return RScale(tok[1])
-    if k == "R":
+    if k in ("R", "K"):
         return RScale(1)
     if k == "L":
         return RLinear()
